@@ -868,11 +868,13 @@ struct History {
 };
 enum LinVerdict { LIN_OK, LIN_VIOLATION, LIN_INCONCLUSIVE };
 // Model: struct with  using State = <copyable>;  static uint64_t hash(const State&);
-//        static bool step(State&, const LinOp&)  -- true iff the op with its observed result is allowed
+//        static void step(const State&, const LinOp&, std::vector<State>& out)
+//        -- appends every state the op (with its observed result) may lead to; none: result not allowed here
 template<class Model>
 inline LinVerdict lin_check(const std::vector<LinOp>& ops, typename Model::State init, uint64_t node_budget = 200000,
                             uint64_t* nodes_out = nullptr)
 {
+    using State = typename Model::State;
     size_t n = ops.size();
     if (n > 62) return LIN_INCONCLUSIVE;
     uint64_t closed_mask = 0;
@@ -880,12 +882,15 @@ inline LinVerdict lin_check(const std::vector<LinOp>& ops, typename Model::State
         if (!ops[i].open()) closed_mask |= (1ull << i);
     struct Frame {
         uint64_t mask;
-        typename Model::State st;
+        State st;
         size_t next;
+        std::vector<State> succ;
+        size_t succ_idx;
+        size_t succ_op;
     };
     std::unordered_set<uint64_t> seen;
     std::vector<Frame> stack;
-    stack.push_back(Frame{0, init, 0});
+    stack.push_back(Frame{0, init, 0, {}, 0, 0});
     uint64_t nodes = 0;
     while (!stack.empty()) {
         Frame& f = stack.back();
@@ -893,27 +898,33 @@ inline LinVerdict lin_check(const std::vector<LinOp>& ops, typename Model::State
             if (nodes_out) *nodes_out = nodes;
             return LIN_OK;
         }
-        // minimal return among pending closed ops
-        uint64_t minret = ~0ull;
-        for (size_t i = 0; i < n; i++)
-            if (!(f.mask >> i & 1) && ops[i].ret < minret) minret = ops[i].ret;
         bool pushed = false;
-        while (f.next < n) {
+        for (;;) {
+            if (f.succ_idx < f.succ.size()) {
+                State st = std::move(f.succ[f.succ_idx++]);
+                uint64_t nm = f.mask | (1ull << f.succ_op);
+                uint64_t key = mixhash(nm * 0x9E3779B97F4A7C15ull, Model::hash(st));
+                if (!seen.insert(key).second) continue;
+                if (++nodes > node_budget) {
+                    if (nodes_out) *nodes_out = nodes;
+                    return LIN_INCONCLUSIVE;
+                }
+                stack.push_back(Frame{nm, std::move(st), 0, {}, 0, 0});
+                pushed = true;
+                break;
+            }
+            if (f.next >= n) break;
             size_t i = f.next++;
             if (f.mask >> i & 1) continue;
-            if (ops[i].call > minret) continue;  // some pending op returned before this one was called
-            typename Model::State st = f.st;
-            if (!Model::step(st, ops[i])) continue;
-            uint64_t nm = f.mask | (1ull << i);
-            uint64_t key = mixhash(nm * 0x9E3779B97F4A7C15ull, Model::hash(st));
-            if (!seen.insert(key).second) continue;
-            if (++nodes > node_budget) {
-                if (nodes_out) *nodes_out = nodes;
-                return LIN_INCONCLUSIVE;
-            }
-            stack.push_back(Frame{nm, std::move(st), 0});
-            pushed = true;
-            break;
+            // minimal return among pending closed ops: an op called after that cannot be next
+            uint64_t minret = ~0ull;
+            for (size_t j = 0; j < n; j++)
+                if (!(f.mask >> j & 1) && ops[j].ret < minret) minret = ops[j].ret;
+            if (ops[i].call > minret) continue;
+            f.succ.clear();
+            f.succ_idx = 0;
+            f.succ_op = i;
+            Model::step(f.st, ops[i], f.succ);
         }
         if (!pushed) stack.pop_back();
     }
